@@ -113,10 +113,15 @@ def run(ctx):
         raise core.MachineryError("vacuous model: %s" % ops)
     ctx.traces = len(res.cases)
     ctx.extra["cases_by_operation"] = ops
+    from .. import tracedrv
+    tracedrv.trace_check(ctx, 150 if ctx.tier == "quick" else 1200, 6 if ctx.tier == "quick" else 8)
     ctx.rule = "one case per (shape or container, map, argument, inplace)"
     ctx.assumptions = ["rational rotation angles only (90, 180, 270 degrees and the 3-4-5 angle)", "either orientation of a rotation is accepted",
                        "1e-9 relative tolerance"]
 
 
 def replay(ctx, v):
+    if "trace" in v["full"]:
+        from .. import tracedrv
+        return tracedrv.replay_trace(ctx, v["full"])
     check_case(ctx, v["full"])
